@@ -1,0 +1,7 @@
+//go:build !verif
+// +build !verif
+
+package cli
+
+// verifEmit is a no-op unless the package is built with the verif tag
+func verifEmit(ev string, c *Cmd, args []string, nargsLen, helpIndex int, err error) {}
